@@ -1,7 +1,39 @@
 """C14: raw <-> protobuf. Model Raw/RawProto.v, spec Raw/RawProtoSpec.v, theorems Properties/C14.v,
 correspondence against layout21raw::Library::{to_proto, from_proto}."""
-import json, struct
+import json, os, re, struct
 from vlib import *
+
+# ------------------------------------------------------------------ which exporter does the tree have
+VARIANT_PROBLEMS = []
+def _fn_body(src, name):
+    i = src.find("fn %s(" % name)
+    if i < 0:
+        return None
+    m = re.search(r"\n    (?:pub(?:\([a-z]+\))? )?fn |\n}\n", src[i + 3:])
+    return src[i:i + 3 + m.start()] if m else src[i:]
+
+def model_variant():
+    """True = `ProtoExporter::export_instance` writes the instance's angle into rotation_clockwise_degrees (the repair of
+    work/c14/fix-export-rotation.patch: model [to_proto]); False = it writes the constant 0 (the code as found: model
+    [to_proto_orig]).  Read from the source text of the tree under test on every run.  When the text is neither, the tie
+    between model and source is broken: the repaired model is used so that something is compared, and the run reports it."""
+    src = open(os.path.join(REPO, "layout21raw/src/proto.rs"), encoding="utf8").read()
+    body = _fn_body(src, "export_instance") or ""
+    const0 = re.search(r"rotation_clockwise_degrees\s*:\s*0\s*,", body) is not None
+    copied = (re.search(r"rotation_clockwise_degrees\s*,", body) is not None and "inst.angle" in body
+              and "fract()" in body and "as i32" in body and "rem_euclid" not in body)
+    if const0 and not copied:
+        return False
+    if copied and not const0:
+        return True
+    VARIANT_PROBLEMS.append("cannot tell which export_instance the tree has (neither `rotation_clockwise_degrees: 0` nor the angle copied with fract()/as i32)")
+    return True
+
+def raw_deporder_checked():
+    """raw DepOrder carries the `pending` set (cycles are an error, not a stack overflow)"""
+    src = open(os.path.join(REPO, "layout21raw/src/data.rs"), encoding="utf8").read()
+    i = src.find("pub struct DepOrder")
+    return i >= 0 and re.search(r"\bpending\s*:", src[i:src.find("}", i)]) is not None
 
 PURPOSES = ["Drawing", "Pin", "Label", "Obstruction", "Outline"]
 
@@ -43,7 +75,8 @@ def gen_shape(rng, big=False):
     return {"P": [[gen_pt(rng) for _ in range(rng.randrange(2, 5))], rng.choice([0, 1, 2, 10, 10, 4, (1 << 63) + 5 if big else 3])]}
 
 ANGLES = [None, 0.0, 90.0, 180.0, 270.0]
-ODD_ANGLES = [-0.0, 360.0, 450.0, -90.0, 45.0, 0.5, 1e300, float("inf"), 720.0, -270.0, 33.0]
+ODD_ANGLES = [-0.0, 360.0, 450.0, -90.0, 45.0, 0.5, 1e300, float("inf"), float("-inf"), float("nan"), 720.0, -270.0, 33.0, -1.0, 1.0,
+              2147483647.0, 2147483648.0, -2147483648.0, -2147483649.0, 2147483647.5, 4294967296.0, -0.5, 5e-324, 1e15, 123456789.0]
 
 def gen_raw_case(rng, kind):
     layers = gen_layers(rng, full=(kind != "unnumbered"))
@@ -92,6 +125,18 @@ def gen_raw_case(rng, kind):
         units = "Pico"
     if kind == "dupname" and ncell > 1:
         cells[1]["name"] = cells[0]["name"]
+    if kind == "cyclic":
+        # a cell that reaches itself: an instance of a cell of the same or a higher rank
+        users = [ci for ci in range(ncell) if cells[ci]["layout"] is not None]
+        if users:
+            ci = rng.choice(users)
+            tgt = rng.choice([x for x in range(ncell) if rank[x] >= rank[ci]])
+            if tgt != ci and cells[tgt]["layout"] is None:
+                cells[tgt]["layout"] = {"name": cells[tgt]["name"], "insts": [], "elems": [], "annots": []}
+            if tgt != ci:
+                cells[tgt]["layout"]["insts"].append({"name": "back", "cell": ci, "loc": [0, 0], "reflect": False, "angle": None})
+            cells[ci]["layout"]["insts"].insert(rng.randrange(len(cells[ci]["layout"]["insts"]) + 1),
+                                                {"name": "cyc", "cell": tgt, "loc": [1, 2], "reflect": False, "angle": None})
     lib = {"name": rng.choice(["lib", "mylib", ""]), "units": units, "layers": layers, "cells": cells}
     return {"op": "raw", "kind": kind, "import_layers": rng.choice(["none", "same"]), "lib": lib}
 
@@ -115,6 +160,8 @@ def lookup_pnum(layers, num, purpose):
                     return n
     return None
 
+ROTS = [0, 0, 0, 90, 180, 270, 45, 359, 1, 360, 450, -90, -1, 720, 2147483647, -2147483648, -270, 123456789]
+
 def gen_proto_case(rng, kind):
     """kind 'canon': canonical w.r.t. the layers handed to the importer; other kinds break one clause."""
     layers = gen_layers(rng) if (kind == "canon_layers" or rng.random() < 0.6) else None
@@ -132,7 +179,7 @@ def gen_proto_case(rng, kind):
             if names:
                 for k in range(rng.randrange(0, 4)):
                     insts.append({"name": "i%d" % k, "cell": {"local": rng.choice(names)}, "origin": [rng.randrange(-90, 90), rng.randrange(-90, 90)],
-                                  "reflect": rng.random() < 0.5, "rot": rng.choice([0, 0, 90, 180, 270, 45, 359, 1])})
+                                  "reflect": rng.random() < 0.5, "rot": rng.choice(ROTS)})
             lps = []
             for _ in range(rng.randrange(0, 4)):
                 lp = [rng.randrange(0, 40), rng.randrange(0, 10)]
@@ -165,9 +212,7 @@ def gen_proto_case(rng, kind):
     allinsts = [i for l in lays for i in l["insts"]]
     allpls = [s for l in lays for s in l["shapes"]]
     abspls = [s for a in abss for s in (a["blockages"] + [x for p in a["ports"] for x in p["shapes"]])]
-    if kind == "rot" and allinsts:
-        rng.choice(allinsts)["rot"] = rng.choice([360, 450, -90, -1, 720, 2147483647, -2147483648])
-    elif kind == "negrect" and allpls:
+    if kind == "negrect" and allpls:
         s = rng.choice(allpls)
         s["rects"].append({"net": "", "ll": [3, 4], "w": rng.choice([-5, 7]), "h": rng.choice([-2, -9])})
     elif kind == "duplayer" and lays:
@@ -227,13 +272,10 @@ def gen_proto_case(rng, kind):
             l["insts"].append({"name": "fwd", "cell": {"local": cells[-1]["name"]}, "origin": [0, 0], "reflect": False, "rot": 0})
     elif kind == "dupname" and len(cells) > 1:
         cells[1]["name"] = cells[0]["name"]
-    if canon:
-        for i in allinsts:
-            pass
     return {"op": "proto", "kind": kind, "layers": layers, "plib": plib}
 
-RAW_KINDS = [("plain", 60), ("oddangle", 8), ("unnumbered", 6), ("badkey", 3), ("emptynet", 4), ("big", 6), ("pico", 1), ("dupname", 2)]
-PROTO_KINDS = [("canon_layers", 30), ("canon_nolayers", 10), ("rot", 6), ("negrect", 5), ("duplayer", 5), ("emptypls", 4), ("flags", 3),
+RAW_KINDS = [("plain", 56), ("oddangle", 12), ("unnumbered", 6), ("badkey", 3), ("emptynet", 4), ("big", 6), ("pico", 1), ("dupname", 2), ("cyclic", 3)]
+PROTO_KINDS = [("canon_layers", 34), ("canon_nolayers", 12), ("negrect", 5), ("duplayer", 5), ("emptypls", 4), ("flags", 3),
                ("absnet", 4), ("abspurpose", 4), ("absdup", 4), ("outlinenet", 2), ("missing", 8), ("range", 6), ("order", 5), ("dupname", 3)]
 
 def pick(rng, table):
@@ -250,8 +292,9 @@ def gen_cases(chk):
     nraw = 900 if quick else 20000
     npro = 700 if quick else 15000
     cases = []
+    raw_kinds = RAW_KINDS if raw_deporder_checked() else [k for k in RAW_KINDS if k[0] != "cyclic"]   # without the pending set a cycle overflows the stack (C17)
     for _ in range(nraw):
-        cases.append(gen_raw_case(rng, pick(rng, RAW_KINDS)))
+        cases.append(gen_raw_case(rng, pick(rng, raw_kinds)))
     for _ in range(npro):
         cases.append(gen_proto_case(rng, pick(rng, PROTO_KINDS)))
     return cases
@@ -377,18 +420,19 @@ def probes_of(case):
             s.add(p[0])
     return sorted(s)
 
-def coq_item(c, r):
+def coq_item(c, r, rep):
     pr = clist([cz(x) for x in c["probe"]])
+    rep = cbool(rep)
     if c["op"] == "raw":
         ly0 = clayers(c["lib"]["layers"]) if c["import_layers"] == "same" else Raw("[]")
-        return capp("c14_check_raw", clib(c["lib"]), ly0, pr, cires(r.get("proto"), cplib), cires(r.get("raw"), craw_out))
+        return capp("c14_check_raw", rep, clib(c["lib"]), ly0, pr, cires(r.get("proto"), cplib), cires(r.get("raw"), craw_out))
     ly0 = clayers(c["layers"]) if c["layers"] is not None else Raw("[]")
-    return capp("c14_check_proto", cplib(c["plib"]), ly0, pr, cires(r.get("raw"), craw_out), cires(r.get("proto"), cplib))
+    return capp("c14_check_proto", rep, cplib(c["plib"]), ly0, pr, cires(r.get("raw"), craw_out), cires(r.get("proto"), cplib))
 
 HDR = ("From Coq Require Import ZArith List String.\nImport ListNotations.\n"
        "From L21 Require Import Raw.RawData Raw.RawProto Raw.RawProtoSpec Raw.RawProtoCheck.\nOpen Scope Z_scope.\n")
 
-def evaluate(chk, cases, tag):
+def evaluate(chk, cases, tag, rep):
     for c in cases:
         c["probe"] = probes_of(c)
     res = harness("c14", [{k: v for k, v in c.items() if k != "kind"} for c in cases])
@@ -400,7 +444,7 @@ def evaluate(chk, cases, tag):
         elif not (table_consistent(r.get("raw"))):
             out[i] = (1, r)      # the impl's layer table answers inconsistently: cannot be reconstructed
         else:
-            items.append(coq_item(c, r))
+            items.append(coq_item(c, r, rep))
             idx.append(i)
     codes = coq_eval_lists(HDR, items, chk.rundir, tag, shard=60)
     for i, s in zip(idx, codes):
@@ -409,10 +453,11 @@ def evaluate(chk, cases, tag):
 
 # ------------------------------------------------------------------ classification of violations
 def int_deg(bits):
+    """the whole number of degrees an angle stands for, if it is one that fits an i32"""
     x = struct.unpack(">d", struct.pack(">Q", bits))[0]
-    if x != x or x in (float("inf"), float("-inf")) or x != int(x):
+    if x != x or x in (float("inf"), float("-inf")) or x != int(x) or not (-2 ** 31 <= int(x) < 2 ** 31):
         return None
-    return int(x) % 360
+    return int(x)
 
 def classify(c, r):
     """known-finding class of a violating case (None = unclassified)"""
@@ -422,7 +467,7 @@ def classify(c, r):
             return "proto-instance-rotation-dropped"
     else:
         rots = [i["rot"] for cell in c["plib"]["cells"] if cell["layout"] for i in cell["layout"]["insts"]]
-        if any(x % 360 != 0 for x in rots):
+        if any(x != 0 for x in rots):
             return "proto-instance-rotation-dropped"
     return None
 
@@ -438,7 +483,8 @@ def run(chk, replay=None):
         "LayerKey = slot index (no layer is ever removed); Layers.nums/names and Layer.purps/nums are derived from the sequence of add / add_purpose calls",
         "isize = i64 (64-bit target); arithmetic overflow has debug-build semantics (panic)",
         "HashMap iteration order is an explicit oracle; theorem C14_raw_proto_raw holds for every oracle that permutes; the harness prints hash-ordered lists sorted by layer number",
-        "instance angles: exact f64 semantics of is_finite, fract, unary minus, rem_euclid(360.0), `as i32`, f64::from(i32) on whole numbers; validated by the correspondence run",
+        "instance angles: exact f64 semantics of fract() == 0.0, comparison with the i32 bounds, `as i32` on whole numbers in range, f64::from(i32); validated by the correspondence run (NaN, infinities, -0.0, 2^31, -2^31-1, subnormals generated)",
+        "DepOrder::order/push is the C17 model order_checked (Order/DepOrderFixed.v), tied to the source by the C17 check; C14 re-reads that the struct carries `pending`",
         "prost structs are plain records; Cell.interface/module and Library.author are reduced to presence flags",
     ]
     if not getattr(chk, "model_ok", False):
@@ -454,10 +500,14 @@ def run(chk, replay=None):
         dist[k] = dist.get(k, 0) + 1
     chk.cov["input_distribution"] = dist
     chk.cov["rule"] = ("raw libraries built through the public API (cell DAGs in shuffled listing order, rects in both corner orders, polygons, paths, nets on/off, "
-                       "3 layers x >=3 purposes, instances with reflection and angle in {None,0,90,180,270} plus odd angles, annotations, abstracts with 1-3 ports on 1-3 layers and blockages) "
+                       "3 layers x >=3 purposes, instances with reflection and angle in {None,0,90,180,270} plus odd angles (negative, >=360, fractional, NaN, infinite, around the i32 bounds), cyclic libraries, annotations, abstracts with 1-3 ports on 1-3 layers and blockages) "
                        "through to_proto then from_proto (fresh or same Layers); proto messages built directly (canonical w.r.t. the importer's Layers, and one-clause-broken variants) "
                        "through from_proto then to_proto; a case is non-trivial when some cell has shapes, instances or an abstract; distinct by JSON text")
-    results = evaluate(chk, cases, "c14")
+    rep = model_variant()
+    chk.cov["model_variant"] = ("export_instance copies the angle (repaired: to_proto)" if rep else "export_instance writes rotation 0 (as found: to_proto_orig)")
+    if VARIANT_PROBLEMS:
+        chk.broken.append("model/source tie: " + VARIANT_PROBLEMS[0])
+    results = evaluate(chk, cases, "c14", rep)
     chk.cov["evaluations"] = len(cases)
     chk.cov["distinct_nontrivial"] = len({json.dumps({k: v for k, v in c.items() if k != "probe"}, sort_keys=True) for c in cases if nontrivial(c)})
     chk.cov["traces_validated_against_impl"] = sum(1 for r in results if r[0] == 0)
